@@ -90,9 +90,10 @@ pub trait Serialize {
         ensures match r {
             Ok(_) => (*final(writer)).out() == (*old(writer)).out() + self.wire(),
             Err(_) => true };
+    // no precondition: the length query must be callable on every value (constructors call it before
+    // anything is known); it has to be right on every value that has a wire form
     fn write_len(&self) -> (r: usize)
-        requires self.ser_inv(),
-        ensures r == self.wire().len();
+        ensures self.ser_inv() ==> r == self.wire().len();
 }
 
 //@trusted T2 std: `impl Read/BufRead for &[u8]`: the remaining content of a byte-slice reader is the slice itself; `impl Write for Vec<u8>` appends; `impl Write for &mut W` forwards
